@@ -105,7 +105,20 @@ func genC37(t *rapid.T) c37Case {
 			r.Path += "/" + genLabel(true, 1, 6).Draw(t, "seg")
 		}
 		u, p := c.User, c.Pass
-		switch rapid.IntRange(0, 15).Draw(t, "auth") {
+		switch rapid.IntRange(0, 18).Draw(t, "auth") {
+		case 16, 17, 18:
+			// the right characters, split at the wrong place between user and password (or all of
+			// them in one field): equal as a concatenation, not as a credential pair
+			all := u + p
+			if len(all) >= 2 {
+				cut := rapid.IntRange(0, len(all)).Draw(t, "resplit")
+				if cut == len(u) {
+					cut = (cut + 1) % (len(all) + 1)
+				}
+				r.Auth, r.AuthHdr = "user+password-split-elsewhere", basic(all[:cut], all[cut:])
+			} else {
+				r.Auth = "none"
+			}
 		case 0, 1:
 			r.Auth = "none"
 		case 2, 3, 4:
